@@ -25,7 +25,7 @@ S4 the default breakpoints separate the inflection points (f'' keeps its sign in
 """
 import math
 import re
-from ..cfg import cond_atoms, norm_facts, xrender, expand_locals, Facts, kids, strip, walk, cv, render, call_args, call_object
+from ..cfg import cond_atoms, norm_facts, xrender, expand_locals, Facts, kids, strip, walk, cv, render, call_args, call_object, canon_rel
 from ..cfg import short_loc as _short_loc
 from ..facts import export_many, AnalysisBroken
 
@@ -440,7 +440,15 @@ def run(rep, ctx):
         g = one(nm)
         wl = [n for n in g.walk() if n["k"] == "WhileStmt"]
         c = render(kids(wl[0])[0]).replace(" ", "") if wl else ""
-        g1.check(len(wl) == 1 and wantc in c, "step|%s" % nm, short_loc(g.loc), "%s the step while %s" % (sign, wantc), c[:100])
+        okc = False
+        for b_ in (walk(kids(wl[0])[0]) if len(wl) == 1 else []):
+            if b_["k"] == "BinaryOperator" and b_.get("op") in ("<", ">", "<=", ">=", "==", "!="):
+                l_, r_ = kids(b_)
+                t_, pol_ = canon_rel((render(l_).replace(" ", ""), b_["op"], render(r_).replace(" ", "")), True)
+                # grow: the error is below the bound (CompareError < 0); shrink: above it (0 < CompareError)
+                if pol_ and t_ == ("CompareError(x0,f0,x0+dx0,f1)<0" if sign == "grow" else "0<CompareError(x0,f0,x0+dx0,f1)"):
+                    okc = True
+        g1.check(okc, "step|%s" % nm, short_loc(g.loc), "%s the step while %s" % (sign, wantc), c[:100])
     me = one("maxErrorRelAbove1")
     co = [n for n in me.walk() if n["k"] == "ConditionalOperator"]
     okm = False
